@@ -71,18 +71,20 @@ Section Ext.
   Variables op1 op2 : op -> Z -> Z -> Z -> Z.
   Hypothesis Hop : forall o x y z, op1 o x y z = op2 o x y z.
   Variables jd1 jd2 : code -> Z -> bool.
+  Variable hash : list Z -> Z.
+  Variable E : env.
   Variable P : params.
   Variable c : code.
   Hypothesis Hjd : forall d, jd1 c d = jd2 c d.
   Variable input : list Z.
 
-  Lemma exec_ext k opc st : exec op1 jd1 c input k opc st = exec op2 jd2 c input k opc st.
+  Lemma exec_ext k opc st : exec op1 jd1 hash E c input k opc st = exec op2 jd2 hash E c input k opc st.
   Proof.
     destruct k; cbn [exec]; try reflexivity;
       destruct (s_stk st) as [|a [|b [|d r]]]; rewrite ?Hop, ?Hjd; reflexivity.
   Qed.
 
-  Lemma step_ext st : step op1 jd1 P c input st = step op2 jd2 P c input st.
+  Lemma step_ext st : step op1 jd1 hash E P c input st = step op2 jd2 hash E P c input st.
   Proof.
     unfold step.
     repeat match goal with
@@ -94,29 +96,29 @@ Section Ext.
       repeat match goal with
              | |- context [match ?x with _ => _ end] =>
                  match x with
-                 | exec _ _ _ _ _ _ _ => fail 1
+                 | exec _ _ _ _ _ _ _ _ _ => fail 1
                  | _ => destruct x
                  end
              end; try reflexivity; apply exec_ext.
   Qed.
 
-  Lemma run_ext fuel : forall st, run op1 jd1 P c input fuel st = run op2 jd2 P c input fuel st.
+  Lemma run_ext fuel : forall st, run op1 jd1 hash E P c input fuel st = run op2 jd2 hash E P c input fuel st.
   Proof.
     induction fuel as [|k IH]; intros st; [reflexivity|].
-    cbn [run]. rewrite step_ext. destruct (step op2 jd2 P c input st); [apply IH|reflexivity].
+    cbn [run]. rewrite step_ext. destruct (step op2 jd2 hash E P c input st); [apply IH|reflexivity].
   Qed.
 End Ext.
 
-Lemma call_ext op1 op2 jd1 jd2 P c input fuel gas :
+Lemma call_ext op1 op2 jd1 jd2 hash E P c input fuel gas :
   (forall o x y z, op1 o x y z = op2 o x y z) -> (forall d, jd1 c d = jd2 c d) ->
-  call op1 jd1 P c input fuel gas = call op2 jd2 P c input fuel gas.
-Proof. intros Ho Hj. unfold call. destruct c eqn:E; [reflexivity|]. rewrite <- E in *. apply run_ext; assumption. Qed.
+  call op1 jd1 hash E P c input fuel gas = call op2 jd2 hash E P c input fuel gas.
+Proof. intros Ho Hj. unfold call. destruct c eqn:Ec; [reflexivity|]. rewrite <- Ec in *. apply run_ext; assumption. Qed.
 
-Definition run_fast (P : params) (c : code) (input : list Z) (fuel : nat) (gas : Z) : outcome * Z :=
+Definition run_fast (hash : list Z -> Z) (E : env) (P : params) (c : code) (input : list Z) (fuel : nat) (gas : Z) : outcome * Z :=
   let jd := jd_cached c in
-  call fast_op (fun _ => jd) P c input fuel gas.
+  call fast_op (fun _ => jd) hash E P c input fuel gas.
 
-Theorem run_fast_eq P c input fuel gas : run_fast P c input fuel gas = run_impl P c input fuel gas.
+Theorem run_fast_eq hash E P c input fuel gas : run_fast hash E P c input fuel gas = run_impl hash E P c input fuel gas.
 Proof.
   unfold run_fast, run_impl. cbv zeta. apply call_ext; [apply fast_op_eq|apply jd_cached_eq].
 Qed.
